@@ -47,10 +47,7 @@ Proof.
 Qed.
 
 Lemma seek_eq img off : seek img off = skipn (Z.to_nat off) img.
-Proof.
-  unfold seek. destruct (Z.gtb_spec off (zlen img)) as [H|H]; [|reflexivity].
-  symmetry. apply skipn_all2. unfold zlen in H. lia.
-Qed.
+Proof. reflexivity. Qed.
 
 Lemma str_at_get_string img st o s :
   str_at img (sh_offset st + o) s = true -> get_string img st o = s.
@@ -60,12 +57,9 @@ Proof.
   rewrite <- app_assoc in Ht. cbn [app] in Ht.
   assert (Hl : (List.length (skipn (Z.to_nat (sh_offset st + o)) img) <= List.length img)%nat)
     by (rewrite skipn_length; lia).
-  cbv zeta. destruct (Z.gtb_spec (sh_offset st + o) (zlen img)) as [Hgt|Hle].
-  - exfalso. rewrite skipn_all2 in Ht by (unfold zlen in Hgt; lia).
-    destruct s; discriminate.
-  - unfold parse_cstring_at. rewrite Ht.
-    rewrite cstr_chunks_valid; [reflexivity|exact Hn|].
-    rewrite Ht in Hl. rewrite !app_length in Hl. cbn [List.length] in Hl. unfold CHUNK. lia.
+  cbv zeta. unfold parse_cstring_at. rewrite Ht.
+  rewrite cstr_chunks_valid; [reflexivity|exact Hn|].
+  rewrite Ht in Hl. rewrite !app_length in Hl. cbn [List.length] in Hl. unfold CHUNK. lia.
 Qed.
 
 (* ---- Enum bindings that are not strict never fail ---- *)
